@@ -253,6 +253,164 @@ fn main() {
             }
             extra = json!({"delivery_wait_ms_after_the_overrun": waits});
         }
+        // C13: enter_on_poll records one local span per poll under whatever name it is given
+        "enter-on-poll-names" => {
+            use std::future::Future;
+            use std::task::{Context, Poll};
+            struct Steps(u32);
+            impl Future for Steps {
+                type Output = u32;
+                fn poll(mut self: std::pin::Pin<&mut Self>, _cx: &mut Context<'_>) -> Poll<u32> {
+                    let _w = LocalSpan::enter_with_local_parent("work");
+                    if self.0 == 0 {
+                        Poll::Ready(7)
+                    } else {
+                        self.0 -= 1;
+                        Poll::Pending
+                    }
+                }
+            }
+            let rep = Rep::default();
+            fastrace::set_reporter(rep.clone(), Config::default());
+            let names: Vec<String> = vec!["".into(), " ".into(), "p".into(), "poll é".into(), "x".repeat(300)];
+            let waker = futures::task::noop_waker();
+            let mut cx = Context::from_waker(&waker);
+            let mut checked = 0;
+            for (k, name) in names.iter().enumerate() {
+                let tid = 0xE0A0 + k as u128;
+                let root = Span::root("root", SpanContext::new(TraceId(tid), SpanId(1)));
+                {
+                    let _g = root.set_local_parent();
+                    let mut fut = Box::pin(Steps(2).enter_on_poll(name.clone()));
+                    let mut polls = 0;
+                    loop {
+                        polls += 1;
+                        c();
+                        if fut.as_mut().poll(&mut cx).is_ready() {
+                            break;
+                        }
+                    }
+                    assert_eq!(polls, 3);
+                }
+                drop(root);
+                fastrace::flush();
+                let recs: Vec<SpanRecord> = rep.0.lock().unwrap().iter().filter(|r| r.trace_id.0 == tid).cloned().collect();
+                let root_id = recs.iter().find(|r| r.name == "root").map(|r| r.span_id);
+                let polls: Vec<&SpanRecord> = recs.iter().filter(|r| r.name == name.as_str() && Some(r.parent_id) == root_id).collect();
+                let works_under_polls = recs.iter().filter(|r| r.name == "work" && polls.iter().any(|p| p.span_id == r.parent_id)).count();
+                if polls.len() != 3 || works_under_polls != 3 || recs.len() != 7 {
+                    panic!("enter_on_poll({:?}) polled three times: {} per-poll spans of that name under the local parent, {} of the 3 inner spans under them, {} records in all (expected 3, 3, 7): {:?}", name, polls.len(), works_under_polls, recs.len(), recs.iter().map(|r| (r.name.to_string(), r.parent_id.0)).collect::<Vec<_>>());
+                }
+                checked += 1;
+            }
+            extra = json!({"names_checked": checked});
+        }
+        // C14 / C18: a stream that announces its length exactly is still bound to its span until it
+        // has returned None
+        "stream-with-exact-size-hint" => {
+            use futures::Stream;
+            use std::task::{Context, Poll};
+            struct Exact(u32, bool);
+            impl Stream for Exact {
+                type Item = u32;
+                fn poll_next(mut self: std::pin::Pin<&mut Self>, _cx: &mut Context<'_>) -> Poll<Option<u32>> {
+                    if self.0 > 0 {
+                        let _p = LocalSpan::enter_with_local_parent("produce");
+                        std::thread::sleep(Duration::from_millis(5));
+                        self.0 -= 1;
+                        Poll::Ready(Some(self.0))
+                    } else {
+                        let _t = LocalSpan::enter_with_local_parent("teardown");
+                        std::thread::sleep(Duration::from_millis(15));
+                        Poll::Ready(None)
+                    }
+                }
+                fn size_hint(&self) -> (usize, Option<usize>) {
+                    if self.1 { (self.0 as usize, Some(self.0 as usize)) } else { (0, None) }
+                }
+            }
+            let rep = Rep::default();
+            fastrace::set_reporter(rep.clone(), Config::default());
+            let waker = futures::task::noop_waker();
+            let mut cx = Context::from_waker(&waker);
+            for (k, exact) in [false, true].into_iter().enumerate() {
+                let tid = 0xE5A0 + k as u128;
+                let root = Span::root("root", SpanContext::new(TraceId(tid), SpanId(1)));
+                let span = Span::enter_with_parent("stream", &root);
+                let t = Instant::now();
+                let mut st = Box::pin(fastrace_futures::StreamExt::in_span(Exact(3, exact), span));
+                let mut items = 0;
+                loop {
+                    c();
+                    match st.as_mut().poll_next(&mut cx) {
+                        Poll::Ready(Some(_)) => {
+                            items += 1;
+                            // the consumer works on the item
+                            std::thread::sleep(Duration::from_millis(5));
+                        }
+                        Poll::Ready(None) => break,
+                        Poll::Pending => unreachable!(),
+                    }
+                }
+                let ran = t.elapsed();
+                drop(st);
+                drop(root);
+                fastrace::flush();
+                let recs: Vec<SpanRecord> = rep.0.lock().unwrap().iter().filter(|r| r.trace_id.0 == tid).cloned().collect();
+                let s = recs.iter().find(|r| r.name == "stream").cloned();
+                let s = match s {
+                    Some(s) => s,
+                    None => panic!("exact size_hint = {}: the stream's span was not delivered: {:?}", exact, recs.iter().map(|r| r.name.to_string()).collect::<Vec<_>>()),
+                };
+                let mut kids: Vec<String> = recs.iter().filter(|r| r.parent_id == s.span_id).map(|r| r.name.to_string()).collect();
+                kids.sort();
+                // the span covers everything up to the poll that returned None: at least the sleeps
+                // inside the polls and between them (3 x 5 + 3 x 5 + 15 ms), and not more than the whole run
+                let lo = Duration::from_millis(44).as_nanos() as u64;
+                let hi = ran.as_nanos() as u64 + 2_000_000;
+                if items != 3 || kids != ["produce", "produce", "produce", "teardown"] || s.duration_ns < lo || s.duration_ns > hi {
+                    panic!("exact size_hint = {}: the span of a stream polled to None has children {:?} and lasted {} ns (the stream ran {} ns; expected produce x3 + teardown and at least {} ns)", exact, kids, s.duration_ns, ran.as_nanos(), lo);
+                }
+            }
+            extra = json!({"streams_checked": 2});
+        }
+        // C07 / C10: flush() inside a local-parent scope with a reporter that traces its own work:
+        // report() does not run in the caller's context
+        "flush-inside-scope-with-tracing-reporter" => {
+            struct Traced(Rep);
+            impl Reporter for Traced {
+                fn report(&mut self, spans: Vec<SpanRecord>) {
+                    let _l = LocalSpan::enter_with_local_parent("export-batch").with_property(|| ("n", spans.len().to_string()));
+                    LocalSpan::add_event(Event::new("exported"));
+                    self.0.report(spans);
+                }
+            }
+            let rep = Rep::default();
+            fastrace::set_reporter(Traced(rep.clone()), Config::default().report_interval(Duration::from_secs(3600)));
+            std::thread::sleep(Duration::from_millis(20));
+            let root = Span::root("user-root", SpanContext::new(TraceId(0xF1A5), SpanId(1)));
+            {
+                let _g = root.set_local_parent();
+                drop(Span::enter_with_local_parent("before-flush"));
+                let ctx_before = SpanContext::current_local_parent().map(|c| c.span_id);
+                fastrace::flush();
+                c();
+                let ctx_after = SpanContext::current_local_parent().map(|c| c.span_id);
+                if ctx_before != ctx_after {
+                    panic!("flush() changed the caller's local parent: {:?} -> {:?}", ctx_before, ctx_after);
+                }
+                let _l = LocalSpan::enter_with_local_parent("after-flush");
+            }
+            drop(root);
+            fastrace::flush();
+            fastrace::flush();
+            let mut names = rep.names(0xF1A5);
+            names.sort();
+            extra = json!({"records_of_the_user_trace": names});
+            if names != ["after-flush", "before-flush", "user-root"] {
+                panic!("flush() was called inside a local-parent scope with a reporter that opens a local span in report(): the user's trace was delivered as {:?}", names);
+            }
+        }
         // C03 / C04: a long-lived thread that has started thousands of traces, while other threads
         // keep their first trace open for a long time: every trace stays its own
         "many-traces-per-thread-cancelable" => {
